@@ -10,7 +10,7 @@ m=json.load(open(sys.argv[1]))
 cs=[]
 for c in re.findall(r'(C\d\d) quick', m.get('detected_by','')):
     if c not in cs: cs.append(c)
-print(' '.join(cs[:2]) or m['breaks_property'])
+print(' '.join(cs[:1]) or m['breaks_property'])
 PY
 )
   NRMC_PROCS=${NRMC_PROCS:-6} /verif/tools/seed_recheck.sh $sid "$checks" quick >> $out 2>&1
